@@ -55,7 +55,7 @@ func verifC04WithExt(msg []byte, off, n int) []byte {
 }
 
 func verifC04Gen(r *verifC04Rng, thorough bool) (cases []verifC04Case) {
-	nRand := 300
+	nRand := 100
 	if thorough {
 		nRand = 5000
 	}
@@ -107,7 +107,7 @@ func verifC04Gen(r *verifC04Rng, thorough bool) (cases []verifC04Case) {
 		b := verifC04Msg(m)
 		var fields [][2]int
 		for off := 0; off < len(b); off++ {
-			for _, w := range []int{1, 2, 4, 8} {
+			for _, w := range []int{1, 8} {
 				fields = append(fields, [2]int{off, w})
 			}
 		}
